@@ -16,7 +16,7 @@ from vf import gen, harness, refdec, synth, tracefs
 
 ID = "C18"
 LEVEL = "fault_enumeration"
-RULE = ("per product (levels 1.1/1.5, 1-3 images, lines 1..9): image truncations at every record boundary and +-1, inside "
+RULE = ("per product (levels 1.1/1.5, 1-3 images, lines 1..9, every sixth with records longer than 64 KiB; the intact product is opened once at the same location before it is damaged): image truncations at every record boundary and +-1, inside "
         "the 720-byte descriptor {0,1,12,359,719,720,721}, mid-prefix, mid-data and 6 random cuts; leader and volume "
         "directory truncations at record boundaries +-1 and random cuts (quick) or every length (thorough, one product "
         "per tier slice); each of summary/VOL/LED/IMG missing; all crossed with rpc in {1, <N, N, N+1, 1024}. "
@@ -24,7 +24,7 @@ RULE = ("per product (levels 1.1/1.5, 1-3 images, lines 1..9): image truncations
         "distinct (file role, cut class, rpc class) signatures")
 ASSUMPTIONS = ["the user cache directory is empty (with a valid cache a truncated image is deliberately not re-read: C07 scope)",
                "exception type is constrained only for missing files, as the property states"]
-REQUIRED_OBS = ["variants", "raised", "missing_file_variants", "image_truncations"]
+REQUIRED_OBS = ["variants", "raised", "missing_file_variants", "image_truncations", "intact_opens_first"]
 CASE_TIMEOUT = 900
 
 N = {"quick": 48, "thorough": 400}
@@ -57,6 +57,9 @@ def run_case(i, tier, seed):
     level = ["1.1", "1.5"][i % 2]
     n_img = [1, 2, 3][i % 3]
     geoms = [(rng.randrange(1, 10), rng.randrange(1, 6)) for _ in range(n_img)]
+    if i % 6 == 5:
+        # one image whose records are longer than 64 KiB (wide swath): per-record code paths that depend on the record size
+        geoms[0] = (rng.randrange(2, 5), rng.randrange(8200, 8400) if level == "1.1" else rng.randrange(32800, 33000))
     files, info = gen.rich_product(rng, [seed, i], level=level, n_images=n_img, scans=[None], geoms=geoms,
                                    leader_kw={"fac_lens": [rng.randrange(66, 200) for _ in range(4)], "att_len": rng.choice([16384, 16 + 120 * 3])})
     names = info["names"]
@@ -97,6 +100,16 @@ def run_case(i, tier, seed):
     roots = {k: harness.unique_root(k) for k in ("vfs", "zip", "local", "memory", "lvfs")}
     sample = None
     try:
+        # the intact product is opened (and one image loaded) at each location first: the damage happens to a product this
+        # process already knows, so anything remembered from the successful open must not mask it
+        for kind0 in ("vfs", "zip"):
+            url0 = synth.install(files, roots[kind0], kind0)
+            try:
+                t0 = harness.open_tree(url0, records_per_chunk=rng.choice([1, 2, 1024]))
+                t0[f"imagery/{harness.group_name(names['imgs'][0])}/data"].values
+                obs["intact_opens_first"] = obs.get("intact_opens_first", 0) + 1
+            except Exception as e:
+                violations.append({"what": f"the intact product could not be opened on {kind0}: {harness.exc_sig(e)}", "detail": {}})
         for role, n, cut, kind in expanded:
             root = roots[kind]
             damaged = dict(files)
